@@ -47,6 +47,11 @@ func menu(tier string) []*item {
 	for i, s := range m {
 		add(curvefam.Menu12Names[i], oracle.Chain(false, s))
 	}
+	// cubics with two inflection points inside (0,1) (serpentine), alone, reversed and after a line
+	add("cube-serpentine", oracle.Chain(false, oracle.MkCube(o, P(5, 5), P(-1, 4), P(6, 3))))
+	add("cube-serpentine-reversed", oracle.Chain(false, oracle.MkCube(P(6, 3), P(-1, 4), P(5, 5), o)))
+	add("line+cube-serpentine", oracle.Chain(false, oracle.MkLine(P(-3, 0), o), oracle.MkCube(o, P(5, 5), P(-1, 4), P(6, 3))))
+	add("cube-serpentine-flat", oracle.Chain(false, oracle.MkCube(o, P(4, 2), P(0, -2), P(4, 0.5))))
 	// closed shapes
 	add("triangle", oracle.Chain(true, oracle.MkLine(o, P(4, 0)), oracle.MkLine(P(4, 0), P(2, 3))))
 	add("closed-quad-cube", oracle.Chain(true, oracle.MkQuad(o, P(2, 2), P(4, 0)), oracle.MkCube(P(4, 0), P(5, -2), P(1, -3), P(1, -1))))
